@@ -9,7 +9,7 @@ validating the trusted `Sem` layer against the compiled behaviour."""
 import copy, itertools, json, os, re, shutil
 import vlib
 from checks.c09 import vlib_corpus
-from specgen import disc_spec, own_field, site_spec
+from specgen import disc_spec, own_field, site_spec, site_union
 
 KIDS = ["Cat", "Dog", "Emu"]
 
@@ -385,12 +385,25 @@ def site_random(r):
             used_fields.add((st["holder"], st["field"]))
             st["req"] = r.random() < 0.4
         sites.append(st)
-    # a body/response schema IDENTICAL to a property-level nullable wrapper gets the pre-computed name of a type that is
-    # never emitted (the property is typed serde_json::Value): dangling type, does not compile — a C01 matter, see DESIGN §12.8
-    def spelling(x):
-        return json.dumps([x["kind"], x["members"], x["disc"], x["arr"], x["wrap"]], sort_keys=True)
-    wrapped_fields = {spelling(x) for x in sites if x["pos"] == "field" and x["wrap"]}
-    sites = [x for x in sites if not (x["pos"] == "io" and x["wrap"] and spelling(x) in wrapped_fields)]
+    # a body/response schema IDENTICAL to an inline schema written at a property (or as array items) whose own type is
+    # never emitted — the property was typed serde_json::Value, a component union or an earlier inline union — gets the
+    # PRE-COMPUTED name of that never-emitted type: dangling type name, the file does not compile.  A C01 matter
+    # (DESIGN §12.9); such documents are not generated.
+    def parts(x):
+        j = site_union(x)
+        out = [j]
+        inner = j
+        if x["wrap"]:
+            inner = j[x["wrap"]][0]
+            out.append(inner)
+        if x["arr"]:
+            out.append(inner["items"])
+        return {json.dumps(p, sort_keys=True) for p in out}
+    inline_parts = set()
+    for x in sites:
+        if x["pos"] == "field" or (x["pos"] == "named" and x["arr"]):
+            inline_parts |= parts(x) if x["pos"] == "field" else {json.dumps(site_union(dict(x, arr=False, wrap=None)), sort_keys=True)}
+    sites = [x for x in sites if not (x["pos"] == "io" and parts(x) & inline_parts)]
     if not sites:
         return site_random(r)
     nops = len({s["holder"] for s in sites if s["pos"] != "io"}) + sum(1 for s in sites if s["pos"] == "io")
@@ -463,6 +476,14 @@ def dbg_chain(s):
         s = s[m.end():]
 
 
+def has_impl(code, name, trait):
+    """does the emitted file give `name` the serde `trait` (derive or hand-written impl)?"""
+    if re.search(r"impl(<'de>)?\s+serde::%s(<'de>)?\s+for\s+%s\b" % (trait, re.escape(name)), code):
+        return True
+    m = re.search(r"((?:#\[[^\]]*\]\s*)+)pub\s+(?:enum|struct)\s+%s\b" % re.escape(name), code)
+    return bool(m and re.search(r"derive\([^)]*\b%s\b" % trait, m.group(1)))
+
+
 def arena(ctx, subset):
     adir = os.path.join(vlib.CACHE, "arena-c14")
     src = os.path.join(adir, "src")
@@ -482,6 +503,34 @@ def arena(ctx, subset):
         if not code or "probes" not in a:
             continue
         enums = (t["impl"]["emitted"] or {}).get("enums", {})
+        if c["op"] == "disc.site":
+            # use sites: the element document is decoded as the CORE type the site has in the emitted code
+            arr_of = {}
+            for st in c["in"]["d"]["sites"]:
+                for sid in ([st["id"] + ".b", st["id"] + ".r"] if st["pos"] == "io" else [st["id"]]):
+                    arr_of[sid] = bool(st.get("arr"))
+            core_of = {x["id"]: x for x in t["impl"].get("sites") or []}
+            sp = []
+            for p in a["probes"]:
+                si = core_of.get(p["site"])
+                if not si or si["kind"] not in ("tag", "untagged") or p["dec"] == "untyped":
+                    continue
+                if not (has_impl(code, si["core"], "Deserialize") and has_impl(code, si["core"], "Serialize")):
+                    continue
+                sp.append(dict(p, ty=si["core"], wrap_array=arr_of.get(p["site"], False) and p["vec"] == 0))
+            if not sp:
+                continue
+            open(os.path.join(src, f"g{i}.rs"), "w").write(strip_header(code))
+            mods.append(f"mod g{i};")
+            for j, p in enumerate(sp):
+                doc = json.dumps(instance(sent[i]["in"]["spec"], p["leaf"], p["prop"], p["tag"]), ensure_ascii=False)
+                if p["wrap_array"]:
+                    doc = "[" + doc + "]"       # the schema says array, the emitted type is not one
+                pid = f"{i}:{j}"
+                h = "#" * (max((len(m) for m in re.findall(r'"(#*)', doc)), default=0) + 1)
+                calls.append(f'  probe::<g{i}::{p["ty"]}>("{pid}", r{h}"{doc}"{h});')
+                expect[pid] = (c, p, enums[p["ty"]], doc)
+            continue
         probes = [p for p in a["probes"] if p["ty"] in enums and enums[p["ty"]].get("de") and enums[p["ty"]].get("ser")]
         if not probes:
             continue
@@ -518,6 +567,15 @@ def arena(ctx, subset):
         obs_accept = bool(o.get("ok"))
         obs_first = vty.get(dbg_chain(o.get("dbg", ""))[0]) if obs_accept and dbg_chain(o.get("dbg", "")) else None
         obs_retag = o.get("out", {}).get(p["prop"]) if obs_accept and isinstance(o.get("out"), dict) else None
+        if "site" in p:
+            # Sem.siteDecode: rejected | member ty (+ re-encoded tag); an array document against a non-array core type is rejected
+            if p["wrap_array"] or p["dec"] == "rejected":
+                agree = not obs_accept
+            else:
+                agree = (obs_accept, obs_first, obs_retag) == (True, p["dec"]["member"], p["retag"])
+            if not agree:
+                bad.append({"case": c, "probe": p, "doc": doc, "observed": o})
+            continue
         exp_first = p["first"] if p["accept"] else None
         if p["valid"]:
             agree = (obs_accept, obs_first, obs_retag) == (p["accept"], exp_first, p["retag"] if p["accept"] else None)
@@ -563,14 +621,16 @@ def run(ctx):
                 ctx.classify(f.result(), tie="K+E")
         if not ctx.quick and not ctx.violations:
             st = structured(ctx)
-            subset = corpus + ctx.rng.sample(st, 160) + [random_case(ctx.rng) for _ in range(140)]
+            subset = (corpus + ctx.rng.sample(st, 160) + [random_case(ctx.rng) for _ in range(140)]
+                      + ctx.rng.sample(site_structured(), 160) + [site_random(ctx.rng) for _ in range(120)])
             arena(ctx, subset)
     return ctx.finish(
         checker_cmd="lake build Oas3Model.Props.C14 && #print axioms on every theorem" + ("" if ctx.quick else " && leanchecker"),
         trusted_base=vlib.TRUSTED_BASE + [
             "Sem layer Oas3.Discr.decT/encodeTag/structAccepts (meaning of the emitted match-on-tag Deserialize, delegating Serialize, serde skip/skip_deserializing/default/deny_unknown_fields) — validated against compiled code by the arena tie in the thorough tier, not proved",
             "syn-based extraction of emitted enums/impls/struct attributes (harness/src/k_disc.rs); odd shapes are mapped to values the model never produces",
-            "abstraction of the OpenAPI document to Oas3.Discr.Spec in the Lean driver (Driver/Discr.lean)"],
-        rule="bounded-exhaustive families {oneOf,anyOf} x {1..3 members} x {full,partial,multi-tag,3 tags,implicit-by-const} x {plain,const,enum-typed,mixed tag property} x {additionalProperties:false} x {second union sharing a child: same/different tag, before/after in name order, implicit} x {nested union} x {operation roots} x {all-schemas}; allOf bases {1..3 children} x {full,partial,multi} x {inline/own child form} x {child const override} x {enum-typed base tag} x {grandchild} x {operation roots: base only, base+first, base+all, child only} x {--only filters} x {all-schemas} (all ~24k in thorough, 2500 sampled in quick) + random configurations (2-5 leaves, 0-3 unions, 0-2 bases, exotic tags/property names, shuffled); each is generated in-process by /repo's generator, facts extracted with syn, compared with the model and JUDGED; thorough: 300+ specs compiled and executed in the arena; non-trivial = has a discriminator; distinct by input hash",
+            "abstraction of the OpenAPI document to Oas3.Discr.Spec in the Lean driver (Driver/Discr.lean)",
+            "use sites: Sem.firstAccepting/shapeAccepts/siteDecode (serde `untagged` = first variant whose struct accepts; required keys and enum-typed fields are read from the EMITTED structs, for the implementation's and for the model's verdict alike) — validated by the arena in the thorough tier; syn extraction of the type at a site (k_disc.rs::site_types); recognition of the site spelling in Driver/Discr.lean::siteSchOf (unrecognised spellings are refused, not defaulted)"],
+        rule="bounded-exhaustive families {oneOf,anyOf} x {1..3 members} x {full,partial,multi-tag,3 tags,implicit-by-const} x {plain,const,enum-typed,mixed tag property} x {additionalProperties:false} x {second union sharing a child: same/different tag, before/after in name order, implicit} x {nested union} x {operation roots} x {all-schemas}; allOf bases {1..3 children} x {full,partial,multi} x {inline/own child form} x {child const override} x {enum-typed base tag} x {grandchild} x {operation roots: base only, base+first, base+all, child only} x {--only filters} x {all-schemas} (all ~24k in thorough, 2500 sampled in quick) + random configurations (2-5 leaves, 0-3 unions, 0-2 bases, exotic tags/property names, shuffled); each is generated in-process by /repo's generator, facts extracted with syn, compared with the model and JUDGED; thorough: 300+ specs compiled and executed in the arena; non-trivial = has a discriminator; distinct by input hash.  USE SITES (op disc.site): positions {component, property req/opt, request body + response} x spellings {union, type:[object,null], array of union, nullable wrapper oneOf/anyOf around union or array, discriminator inner/outer} x {oneOf,anyOf} x {full, multi-tag, implied, 3 members full/partial} x tag property {plain, const, enum-typed} x neighbours {none, plain / other property / other mapping twin over the same member set as component, property of another or the same holder, array items; before/after in name order} (15510 documents; 1800 sampled in quick) + random site documents (2-4 overlapping members, 1-5 sites); thorough: +280 site documents compiled, element documents decoded at the site's core type",
         assumptions=["schema names are valid Rust type names (to_rust_type_name is the identity on them)", "union members and mapping targets are `#/components/schemas/…` references; inline members are out of scope",
                      "a valid document for mapping entry tag↦S carries the tag and the properties of S; entries whose tag S's own tag property forbids (const/enum) have no valid document and are not judged"])
